@@ -101,7 +101,7 @@ def main():
                     ensures={"C41.rows_exact_in_order-bounded": _ens_rows,
                              "C41.columns_by_flags-bounded": _ens_cols},
                     nontrivial=lambda a, r, exc: a["query"] is not None)
-  fn.check(rep, c, _engine_cases, exhaustive=False, limit_quick_s=40)
+  fn.check(rep, c, _engine_cases, exhaustive=False, limit_quick_s=40, warm_engine=True)
   return rep.finish()
 
 
